@@ -382,7 +382,16 @@ def qloop_rules(run, db, rule='C07.qloop'):
                 kinds.add('m0')
                 continue
             M = as_rat(dom, p.frame.env['m'], 'm')
-            neg = _has(p, 'sign(m) == -1', True)
+            # which sign of m this path is for, from the tests on m that were taken (however the routine spells them)
+            verdicts = set()
+            for cond_txt, cond_true in p.conds:
+                cond_txt = cond_txt.replace(' ', '')
+                for pat, when_true in (('sign(m)==-1', 'neg'), ('m<0', 'neg'), ('0>m', 'neg'), ('m<=0', 'neg'), ('m>0', 'pos'), ('0<m', 'pos'), ('m>=0', 'pos'), ('sign(m)==1', 'pos')):
+                    if cond_txt == pat:
+                        verdicts.add(when_true if cond_true else ('pos' if when_true == 'neg' else 'neg'))
+            if len(verdicts) != 1:
+                raise AnalysisError('Q2d: which sign of m the path %s is for is not read off its tests' % (p.conds,))
+            neg = verdicts == {'neg'}
             want_M = dom.rat(dom.call_ext('builtins.abs', [Sym(m_)], {}, None))
             okM = M == want_M
             pref = (at('pow', r_, M) * Rat(R.trig('sin', M * t_))) if neg else (at('pow', r_, m_) * Rat(R.trig('cos', m_ * t_)))
